@@ -36,7 +36,7 @@ Definition interp_go (ea : path -> M chain) : list (string * option path) -> str
     | (text, None) :: r => go r (acc +++ text) unk sec
     | (text, Some p) :: r =>
         pv <- ea p ;;
-        let '(s, u, sc) := to_string big_fuel pv in
+        let '(s, u, sc) := to_string (ts_need pv) pv in
         go r (if u then acc +++ text else acc +++ text +++ s) (unk || u) (sec || sc)
     end.
 
@@ -128,7 +128,7 @@ Definition repr_body
           else match v with
                | LScalar _ _ _ (SStr s) :: _ =>
                    match json_parse s with
-                   | JPOk j => ret (unexport big_fuel false (json_to_x (S (json_depth j)) sec j))
+                   | JPOk j => ret (unexport (S (x_depth (json_to_x (S (json_depth j)) sec j))) false (json_to_x (S (json_depth j)) sec j))
                    | JPErr => err ;;; ret [LScalar sec true ScAlways SNull]
                    | JPUnsupported => out_of_fuel ;;; ret invalid_access
                    end
@@ -147,7 +147,7 @@ Definition repr_body
              end
     | EToString e =>
         v <- ee e false [] (fst id, snd id ++ [IIdx 0]) ;;
-        let '(s, unk, sec) := to_string big_fuel v in
+        let '(s, unk, sec) := to_string (ts_need v) v in
         if unk then ret [LScalar sec true (ScType "string") SNull] else ret [str_layer sec false s]
     | ESecretPlain s =>
         ee (EStr s) true [] (fst id, snd id ++ [IIdx 0])
@@ -177,14 +177,14 @@ Definition repr_body
         | None => ret [unknown_layer false out_s]
         | Some p =>
             if negb ok || contains_unknowns iv || w_check W then ret [unknown_layer false out_s]
-            else match export big_fuel iv with
+            else match export_t iv with
                  | Some (XObj s u m as xin) =>
                      failed2 <- call W ;;
                      emit (EvOpen id pname xin (ec_root E) (ec_name E)) ;;;
                      let out := if failed2 then None
                                 else match pv_beh p with PEcho => Some xin | PConst v => Some v | PFail => None end in
                      match out with
-                     | Some o => ret (unexport big_fuel false o)
+                     | Some o => ret (unexport (S (x_depth o)) false o)
                      | None => err ;;; ret [unknown_layer false out_s]
                      end
                  | Some _ => err ;;; ret [unknown_layer false out_s]
@@ -205,8 +205,8 @@ Definition access_body (wk : expr -> bool -> chain -> eid -> path -> M chain) (E
     | a0 :: rest =>
         let k0 := object_key a0 in
         match k0 with
-        | Some "imports" => let '(c, n) := value_access big_fuel (ec_imports E) rest in add_err n ;;; ret c
-        | Some "context" => let '(c, n) := value_access big_fuel (ec_context E) rest in add_err n ;;; ret c
+        | Some "imports" => let '(c, n) := value_access (va_need (ec_imports E) rest) (ec_imports E) rest in add_err n ;;; ret c
+        | Some "context" => let '(c, n) := value_access (va_need (ec_context E) rest) (ec_context E) rest in add_err n ;;; ret c
         | _ => wk (EObj (ec_values E)) false (ec_base E) (ec_name E, []) p
         end
     end.
@@ -231,7 +231,7 @@ Definition walk_body
                 match find_entry k entries O with
                 | Some (_, px) => wk px false (property k rbase) (fst rid, snd rid ++ [IKey k]) rest
                 | None =>
-                    if is_object rbase then let '(c, n) := value_access big_fuel rbase accs in add_err n ;;; ret c
+                    if is_object rbase then let '(c, n) := value_access (va_need rbase accs) rbase accs in add_err n ;;; ret c
                     else err ;;; ret invalid_access
                 end
             end
@@ -239,7 +239,7 @@ Definition walk_body
         | ESecretCipher _ => err ;;; ret invalid_access
         | _ =>
             v <- ee rx rsec rbase rid ;;
-            let '(c, n) := value_access big_fuel v accs in add_err n ;;; ret c
+            let '(c, n) := value_access (va_need v accs) v accs in add_err n ;;; ret c
         end
     end.
 
@@ -342,7 +342,7 @@ Proof. reflexivity. Qed.
 Lemma interp_go_ref ea text p r acc unk sec :
   interp_go ea ((text, Some p) :: r) acc unk sec =
   (pv <- ea p ;;
-   let '(s, u, sc) := to_string big_fuel pv in
+   let '(s, u, sc) := to_string (ts_need pv) pv in
    interp_go ea r (if u then acc +++ text else acc +++ text +++ s) (unk || u) (sec || sc)).
 Proof. reflexivity. Qed.
 Lemma arr_go_nil ee id i acc :
@@ -499,7 +499,7 @@ Lemma interp_go_R (ea ea' : path -> M chain) :
 Proof.
   intros H. induction ps as [|[text [p|]] r IH]; intros acc unk sec.
   - rewrite !interp_go_nil. r_tac.
-  - rewrite !interp_go_ref. apply R_bind; [apply H|]. intro pv. destruct (to_string big_fuel pv) as [[s u] sc]. apply IH.
+  - rewrite !interp_go_ref. apply R_bind; [apply H|]. intro pv. destruct (to_string (ts_need pv) pv) as [[s u] sc]. apply IH.
   - rewrite !interp_go_text. apply IH.
 Qed.
 
